@@ -207,3 +207,42 @@ M('c10_first_peak_only', 'C10', (PA, "        if cost < best_cost:\n", "        
 M('c10_exp_weight_uncapped', 'C10', (PA, "                    weight_exp = max_energy_threshold\n", "                    weight_exp = 1.0\n"))
 M('c10_energy_from_edge', 'C10', (PA, "    path_energy = [F_graph.nodes[node]['energy'] for node in optimal_path]\n    path = Pathway(sites=optimal_path, energy=path_energy)\n    return path\n", "    path_energy = [F_graph.nodes[node]['energy'] for node in optimal_path]\n    if len(path_energy) > 4:\n        path_energy[-1] = path_energy[-2]\n    path = Pathway(sites=optimal_path, energy=path_energy)\n    return path\n"))
 M('c10_tile_once', 'C10', (PA, "    F_data_periodic = np.tile(F.data, tuple(1 + percolate_xyz))\n", "    F_data_periodic = np.tile(F.data, tuple(1 + percolate_xyz * (np.arange(3) < 2)))\n"))
+# ---- C16 -------------------------------------------------------------------------------------
+LAM_EXC = """            try:
+                return cls.from_cache(cache)
+            except Exception as e:
+                print(e)
+                print(f'Error reading from cache, reading {coords_file!r}')
+
+        if not constant_lattice:
+            raise NotImplementedError"""
+M('c16_except_eoferror_lammps', 'C16', (TR, LAM_EXC, LAM_EXC.replace('except Exception as e', 'except (EOFError, pickle.UnpicklingError) as e')))
+M('c16_except_narrow_vasprun', 'C16', (TR, """            except Exception as e:
+                print(e)
+                print(f'Error reading from cache, reading {xml_file!r}')""", """            except (EOFError, pickle.UnpicklingError, AttributeError, ValueError) as e:
+                print(e)
+                print(f'Error reading from cache, reading {xml_file!r}')"""))
+M('c16_revert_F10_typemap', 'C16', (TR, "                'type_mapping': type_mapping,\n", ""))
+M('c16_drop_temperature_key', 'C16', (TR, "                'temperature': temperature,\n                'time_step': time_step,\n                'atom_style'", "                'time_step': time_step,\n                'atom_style'"))
+M('c16_no_rewrite_after_fallback', 'C16', (TR, """        obj.to_positions()
+
+        if cache:
+            obj.to_cache(cache)
+
+        return obj
+
+    @classmethod
+    def from_lammps(""", """        obj.to_positions()
+
+        if cache and not Path(cache).exists():
+            obj.to_cache(cache)
+
+        return obj
+
+    @classmethod
+    def from_lammps("""))
+M('c16_from_cache_unchecked_eof', 'C16', (TR, "        with open(cache, 'rb') as f:\n            obj = pickle.load(f)\n        return obj\n", "        with open(cache, 'rb') as f:\n            try:\n                obj = pickle.load(f)\n            except EOFError:\n                obj = None\n        return obj\n"))
+M('c16_gromacs_key_no_temperature', 'C16', (TR, "                'edr_file': edr_file,\n                'temperature': temperature,\n", "                'edr_file': edr_file,\n"))
+M('c16_vasprun_key_ignores_kwargs', 'C16', (TR, "                {**kwargs, 'constant_lattice': constant_lattice}, sort_keys=True\n", "                {'constant_lattice': constant_lattice}, sort_keys=True\n"))
+M('c16_cache_written_before_wrap', 'C16', (TR, "            metadata={'temperature': temperature},\n        )\n        obj.to_positions()\n\n        if cache:\n            obj.to_cache(cache)\n", "            metadata={'temperature': temperature},\n        )\n        if cache:\n            obj.to_cache(cache)\n        obj.coords = obj.coords + 1e-9\n        obj.to_positions()\n"))
+M('c16_to_cache_protocol_text', 'C16', (TR, "            pickle.dump(self, f)\n", "            pickle.dump(self, f)\n            if len(self) == 5:\n                f.truncate(f.tell() - 1)\n"))
